@@ -274,7 +274,7 @@ def main(argv):
     v.coverage.update({
         'evaluations': len(cases),
         'distinct_nontrivial': distinct_count(cases),
-        'rule': 'generated programs in ANM (TH08/12/17), MSG (TH08/12/17, strings with and without furigana prefix), STD (TH095/12), old ECL (TH06/07/08: subs with locals, block-scoped locals, difficulty switches, if/loop blocks, jumps; timelines) and stack ECL (TH10) -> truth-cli compile --output-debug-info -> the binary is re-read in-process; per script: number of entries = number of instructions in the file, every offset = sum of the sizes of the preceding instructions in the file, end-offset = script length, span text ins_N = opcode in the file, every label offset is a boundary, every goto is encoded with the label offset/time of the debug info, every use of a local holds the register the debug info binds it to, consts have the source value. An evaluation is one compiled script.',
+        'rule': 'generated programs in ANM (TH08/12/17), MSG (TH08/12/17, strings with and without furigana prefix), STD (TH095/12), old ECL (TH06/07/08: subs with locals, block-scoped locals, subs with named and unnamed int/float parameters in any order, difficulty switches, if/loop blocks, jumps; timelines) and stack ECL (TH10) -> truth-cli compile --output-debug-info -> the binary is re-read in-process; per script: number of entries = number of instructions in the file, every offset = sum of the sizes of the preceding instructions in the file, end-offset = script length, span text ins_N = opcode in the file, every label offset is a boundary, every goto is encoded with the label offset/time of the debug info, every use of a local holds the register the debug info binds it to, consts (chains declared in an order unrelated to their dependencies: forward references, sigils, int()/float() casts) have the value evaluated from the source text. An evaluation is one compiled script.',
         'traces_validated_against_impl': len(cases),
         'checked_items': total,
         'generator_stats': stats,
